@@ -19,6 +19,8 @@ pub struct HistSpec {
     pub accept: Vec<&'static str>,
     pub weights: Weights,
     pub types: Vec<&'static str>,
+    /// start every history with a bulk insertion of hundreds of prefixes
+    pub scale: bool,
     pub max_uni: usize,
     pub min_uni: usize,
     pub min_ops: usize,
@@ -274,7 +276,9 @@ pub fn run_hist_check(spec: &HistSpec, seed: u64) -> Outcome {
     };
     let threads = std::thread::available_parallelism().map(|n| n.get()).unwrap_or(4).min(16);
     let mut o = run_parallel(jobs, threads, |(t, sh)| {
-        let strat = if spec.min_ops > 0 { gen::case_min(t, &spec.weights, spec.min_uni.max(2), spec.max_uni, spec.min_ops, spec.max_ops.max(spec.min_ops)) } else { gen::case(t, &spec.weights, spec.max_uni, spec.max_ops, 0) };
+        let strat = if spec.scale {
+            gen::scale_case(t, &spec.weights, spec.max_ops)
+        } else if spec.min_ops > 0 { gen::case_min(t, &spec.weights, spec.min_uni.max(2), spec.max_uni, spec.min_ops, spec.max_ops.max(spec.min_ops)) } else { gen::case(t, &spec.weights, spec.max_uni, spec.max_ops, 0) };
         let label = format!("{}-{}-{}", spec.label, t, sh);
         let mut o = run_shard(spec.id, &label, strat, spec.cases, seed.wrapping_mul(1_000_003).wrapping_add(sh as u64), &accept, &known, |c| {
             exec_hist_dyn(c, spec, &known, false)
